@@ -464,6 +464,16 @@ theorem header_fixed_point (f : Fields) (L : Int) :
 example : accessionLine { Fields.empty with accession := bs "AB000001", region := some (2, 9) } = bs "AB000001 REGION: 3..9" := by
   decide +kernel
 
+/-- **residues, fixed point.**  The reader keeps the ORIGIN block as written; that block has the
+length of the residues (`Origin.Len`, which goes into the LOCUS line) and `Origin.String` prints it
+as `NewOrigin(p).String()` printed the residues. -/
+theorem origin_fixed_point (p : Bytes) (hlen : p.length < 10 ^ 9) :
+    OriginV.len (if p.isEmpty then .buffer [] else .buffer (Origin.originStream p)) = OriginV.len (.residues p) ∧
+    (¬ p.isEmpty → OriginV.text (.buffer (Origin.originStream p)) = OriginV.text (.residues p)) :=
+  origin_readBack p hlen
+
+example : (bs "acgtacgtacgtacgtacgtacgtacgtacgtacgtacgtacgtacgtacgtacgtacgtacgtacgtacgt").length < 10 ^ 9 := by decide
+
 /-- **Learning never changes what is written**: a registry that has learned names (unknown →
 quoted) since — by reading this record, earlier records of the stream, or anything else — writes
 every record byte for byte as before.  (`QualifierIO.String` consults the process-global registry
@@ -647,6 +657,27 @@ example : (∀ x ∈ streamWitness, x.1.origin = .residues x.2 ∧ Writable Regi
       decide +kernel
     exact ⟨(hw x hx).1, (hw x hx).2, fun f hf => locRT_of_canon f.loc (List.all_eq_true.mp (hc x hx) f hf)⟩
   · decide +kernel
+
+/-- **A pipeline that reads and writes in turn** (`gts` commands scan a record, write it, scan the
+next: the process-global registry grows between two writes).  `writeEach` writes record `i` under
+the registry `gᵢ` of its moment; if every `gᵢ` is the starting registry `reg` plus names learned
+since (`sameText reg gᵢ`), the stream is byte for byte the one `WriteSeq` writes under `reg` alone
+— and is therefore read back by `read_stream_learning`. -/
+theorem write_pipeline_same (reg : Registry) (xs : List (Registry × Record)) (h : ∀ x ∈ xs, sameText reg x.1) :
+    writeEach xs = writeAll reg (xs.map (·.2)) :=
+  writeEach_same reg xs h
+
+/-- non-vacuity: the second record of `streamWitness` written under the registry that has learned
+the names of the first -/
+example (r1 r2 : Record) : ∀ x ∈ [(Registry.default, r1), (learnTable Registry.default fixedWitness', r2)],
+    sameText Registry.default x.1 := by
+  intro x hx
+  simp only [List.mem_cons, List.not_mem_nil, or_false] at hx
+  rcases hx with rfl | rfl
+  · exact sameText_refl _
+  · exact sameText_learnTable _ _ _ (sameText_refl _)
+
+example : learnTable Registry.default fixedWitness' ≠ Registry.default := by decide +kernel
 
 /-! ## closure of the writable domain under the edit operations
 
